@@ -279,3 +279,33 @@ def peel_refs(body, l, depth=6):
             continue
         return l
     return l
+
+
+def narrowing_cast_guarded(b, bi, operand_local):
+    """Is the value `operand_local`, narrowed by a cast in block bi, range-checked on every path to bi?
+    Idioms: a dominating comparison of the same value whose `too big` arm avoids bi; a dominating
+    `RangeInclusive::contains(&range, &value)` with bi off the false arm; a remainder of widened values."""
+    l = operand_local
+    if l is None:
+        return False
+    for g in upper_bound_guards(b, l):
+        if b.dominates(g[0], bi) and g[1] is not None and bi not in b.reachable([g[1]]):
+            return True
+    root_l = value_root(b, l)
+    for sb in range(len(b.blocks)):
+        sw = switch_on(b, sb)
+        if not sw or not b.dominates(sb, bi):
+            continue
+        sd = b.single_def(sw[0])
+        if sd and sd[2] == "call":
+            cc = b.call_at(sd[0])
+            if cc and cc.name.endswith("::contains") and len(cc.args) > 1:
+                al = peel_refs(b, op_local(cc.args[1]))
+                if al is not None and value_root(b, al) == root_l:
+                    t_false = [tb for v, tb in sw[2] if v == 0]
+                    if t_false and bi not in b.reachable([t_false[0]]):
+                        return True
+    sdr = b.single_def(root_l)
+    if sdr and sdr[2] == "assign" and sdr[3][2][0] == "bin" and sdr[3][2][1] == "Rem":
+        return True
+    return False
